@@ -186,7 +186,7 @@ class AxolotlManager(object):
         logger.debug("decrypt_msg(senderid=%s, data=[omitted], unpad=%s)" % (senderid, unpad))
         msg = WhisperMessage(serialized=data)
         try:
-            plaintext = self._get_session_cipher(senderid).decryptMsg(msg)
+            plaintext = self._decrypt_msg_of_trusted_identity(self._get_session_cipher(senderid), senderid, msg)
 
             return self._unpad(plaintext) if unpad else plaintext
         except NoSessionException:
@@ -197,6 +197,24 @@ class AxolotlManager(object):
             raise exceptions.InvalidMessageException()
         except DuplicateMessageException:
             raise exceptions.DuplicateMessageException()
+
+    def _decrypt_msg_of_trusted_identity(self, session_cipher, senderid, msg):
+        """
+        What SessionCipher.decryptMsg does, with the identity check it lacks: a session record keeps the states of
+        earlier sessions, among them those of an identity the contact had before. A message that only such a state
+        decrypts makes that state the current one again, i.e. later messages would be encrypted for an identity other
+        than the one remembered for the contact. So the identity of the state that decrypted is checked like the
+        identity of a first message, before anything is stored.
+        """
+        if not self._store.containsSession(session_cipher.recipientId, session_cipher.deviceId):
+            raise NoSessionException("No session for: %s, %s" % (session_cipher.recipientId, session_cipher.deviceId))
+        session_record = self._store.loadSession(session_cipher.recipientId, session_cipher.deviceId)
+        plaintext = session_cipher.decryptWithSessionRecord(session_record, msg)
+        identity = session_record.getSessionState().getRemoteIdentityKey()
+        if identity is not None and not self._store.isTrustedIdentity(session_cipher.recipientId, identity):
+            raise UntrustedIdentityException(senderid, identity)
+        self._store.storeSession(session_cipher.recipientId, session_cipher.deviceId, session_record)
+        return plaintext
 
     def group_encrypt(self, groupid, message):
         """
